@@ -268,3 +268,11 @@ package ast
 //@   requires 0 <= pos && pos <= len(src)
 //@   ensures ret >= 0 <==> (pos + 5 <= len(src) && src[pos] == 0x66 && src[pos + 1] == 0x61 && src[pos + 2] == 0x6c && src[pos + 3] == 0x73 && src[pos + 4] == 0x65)
 //@   ensures ret >= 0 ==> ret == pos + 5
+
+// skipString (a Go fall-back scanner; C05: a trailing backslash makes the
+// cursor jump one past the end, the loop test then stops it before any load; C07).
+//@ func skipString props C05,C07
+//@   requires 0 <= pos && pos <= len(src)
+//@   ensures ret >= 0 ==> (pos + 2 <= ret && ret <= len(src))
+//@   loop 0: invariant ptrlo(sp) + pos + 1 <= ptrindex(sp) && ptrindex(sp) <= ptrhi(sp) + 1 && ptrhi(sp) == ptrlo(sp) + len(src) && -1 <= ep && ep < len(src)
+//@   loop 0: decreases ptrhi(sp) + 1 - ptrindex(sp)
